@@ -584,7 +584,8 @@ ICS20_ASSUME = [
     "honest cw20 tokens call Receive only from their own Send; an address calling Receive directly only creates state under its own key",
     "IBC entry points are driven through a sudo adaptor of the harness; cw-multi-test's IbcAcceptingModule accepts SendPacket; its "
     "bank pays any address string; SubMsg gas limits are recorded, not enforced; JSON wire formats are the crate's own types",
-    "balance-rewriting migrations (0.11-0.13 layouts) are in the executable model and in the differential run, not in the history theorems",
+    "migrate's balance queries are a parameter of the model (what the contract actually holds per key; None = the query fails); "
+    "in the world model they are the ledger's answers",
 ]
 
 
@@ -602,8 +603,9 @@ PROPS["C11"] = _ics20_prop("C11", 0, C11_CLAUSES, "channel balances and holdings
     "arbitrary contents, acks, timeouts and donations in any order with payouts/refunds failing at arbitrary points, holdings "
     ">= the sum over channels of the outstanding balance (induction over histories on the world = contract state + token "
     "ledger); per channel outstanding <= total_sent in every reachable state; unparsable / foreign-port / foreign-channel / "
-    "foreign-denom / over-balance packets yield an error ack and change nothing. PARTIAL: balance-rewriting migrations are "
-    "outside the history theorem. Tie to the Rust: S_C11 on every step of generated histories on the real contract incl. IBC "
+    "foreign-denom / over-balance packets yield an error ack and change nothing; the same invariant holds with migrations "
+    "anywhere in the history, the balance-rewriting ones from the 0.11-0.13 layouts included (c11_solvent_with_migrations). "
+    "Tie to the Rust: S_C11 on every step of generated histories on the real contract incl. IBC "
     "entry points, failing payouts, hostile vouchers, legacy layouts + equality of holdings and channel state (measured).")
 PROPS["C12"] = _ics20_prop("C12", 1, C12_CLAUSES, "channel state, messages and acknowledgements",
     "Axiom-free Coq theorems: over every history outstanding + failed + redeemed = sent and total_sent = sent per channel and "
@@ -611,8 +613,9 @@ PROPS["C12"] = _ics20_prop("C12", 1, C12_CLAUSES, "channel state, messages and a
     "everything but the scratch reply_args exactly as before (reduce + undo restore the very same table); a success ack only "
     "for a voucher of our counterparty's port/channel, with exactly one payout of the amount and the balance reduced by it; "
     "every accepted transfer emits exactly one packet (0 < amount <= 2^64-1, key, true sender, receiver, memo, block time + "
-    "requested-or-default timeout) and raises outstanding and total_sent by the amount. PARTIAL: migration paths are decided "
-    "by the differential run only. Tie to the Rust: S_C12 + the identity with ghost counters on every step (measured).")
+    "requested-or-default timeout) and raises outstanding and total_sent by the amount; every upgrade path keeps the "
+    "accounting invariant and a balance-rewriting migration leaves outstanding = actual escrow per key, so the identity "
+    "restarts from the migrated balance. Tie to the Rust: S_C12 + the identity with ghost counters on every step (measured).")
 PROPS["C18"] = _ics20_prop("C18", 2, C18_CLAUSES, "allow list, governance address, defaults and payout gas limits",
     "Axiom-free Coq theorems: every accepted execute call only loosens the allow list and changes it or the governance address "
     "only when made by the current governance address; IBC entry points and migrate never touch the allow list; migrate sets "
